@@ -100,6 +100,12 @@ def gen_cases(tier, seed):
                 cfg = dict(multipart_threshold=16, multipart_chunksize=8, io_chunksize=4, max_request_concurrency=2)
                 cases.append({'seed': rng.randrange(1 << 30), 'min_part': 8, 'config': cfg, 'transfers': [t], 'family': 'window',
                               'entry': 'future.cancel', 'yield': {'p': 0.0, 'window': dict(wdw, nth=nth, target=0)}})
+    from .. import windows
+
+    for sp in windows.cases(rng, 'cancel', 60 if quick else 2500, core_reps=1 if quick else 4, nths=(0, 1) if quick else (0, 1, 2)):
+        sp['family'] = 'window'
+        sp['entry'] = 'future.cancel'
+        cases.append(sp)
     rng.shuffle(cases)
     return cases
 
